@@ -35,11 +35,37 @@ func ruleDecodeFresh(r *core.Run, id string, pkgPrefixes ...string) {
 			continue
 		}
 		loops := cfgx.Loops(f)
+		res := r.Resolver(f)
+		k := 0
+		// a callback handed to an iteration helper is the loop body: decoding there into a variable captured from the
+		// enclosing function is decoding into one variable for all elements
+		if f.Parent() != nil {
+			for _, b := range f.Blocks {
+				for _, ins := range b.Instrs {
+					c, ok := ins.(ssa.CallInstruction)
+					if !ok {
+						continue
+					}
+					cn, _ := res.CalleeName(c.Common())
+					if !(strings.HasSuffix(cn, ".MustUnmarshal") || strings.HasSuffix(cn, ".Unmarshal")) || len(c.Common().Args) == 0 {
+						continue
+					}
+					tgt := c.Common().Args[len(c.Common().Args)-1]
+					if mi, ok := tgt.(*ssa.MakeInterface); ok {
+						tgt = mi.X
+					}
+					if fv, ok := tgt.(*ssa.FreeVar); ok {
+						n++
+						k++
+						key := core.Key(id, r.KeyName(f), fmt.Sprintf("decode in callback#%d", k))
+						r.Violate(id, key, r.P.Pos(c.Pos()), fmt.Sprintf("a callback decodes every record it is handed into %s, a variable captured from the enclosing function: the generated Unmarshal does not reset its target, so each element keeps the repeated fields and zero-valued scalars of the elements decoded before it", fv.Name()))
+					}
+				}
+			}
+		}
 		if len(loops) == 0 {
 			continue
 		}
-		res := r.Resolver(f)
-		k := 0
 		for _, b := range f.Blocks {
 			for _, ins := range b.Instrs {
 				c, ok := ins.(ssa.CallInstruction)
@@ -70,7 +96,21 @@ func ruleDecodeFresh(r *core.Run, id string, pkgPrefixes ...string) {
 				n++
 				k++
 				key := core.Key(id, r.KeyName(f), fmt.Sprintf("decode in loop#%d", k))
-				if inLoop.Body[al.Block()] {
+				// a variable declared outside but cleared inside the loop (x = T{} / x.Reset()) is fresh as well
+				cleared := false
+				for _, ref := range *al.Referrers() {
+					switch x := ref.(type) {
+					case *ssa.Store:
+						if x.Addr == ssa.Value(al) && inLoop.Body[x.Block()] {
+							cleared = true
+						}
+					case ssa.CallInstruction:
+						if cn2, _ := res.CalleeName(x.Common()); strings.HasSuffix(cn2, ".Reset") && inLoop.Body[x.Block()] {
+							cleared = true
+						}
+					}
+				}
+				if inLoop.Body[al.Block()] || cleared {
 					r.Discharge(id, key, r.P.Pos(c.Pos()), "the record is decoded into a variable that is fresh in every iteration")
 				} else {
 					r.Violate(id, key, r.P.Pos(c.Pos()), "records are decoded inside a loop into one variable declared outside it: the generated Unmarshal does not reset its target, so every element keeps the repeated fields (appended to) and the zero-valued scalars (absent from the wire) of the elements decoded before it")
@@ -204,45 +244,114 @@ func ruleFreshOnlyIfMissing(r *core.Run, id string, pkgPrefixes ...string) {
 // then refuses its own export.
 func ruleValidateMaps(r *core.Run, id string) {
 	n := 0
-	for _, f := range r.P.Funcs {
-		if f == nil || len(f.Blocks) == 0 || !strings.HasSuffix(r.P.Name(f), "/types.GenesisState.Validate") {
+	// what a helper does with the maps it is handed: parameter index -> looked up / filled (two levels deep)
+	type use struct{ looked, filled map[int]bool }
+	memo := map[*ssa.Function]*use{}
+	var summarize func(g *ssa.Function, depth int) *use
+	summarize = func(g *ssa.Function, depth int) *use {
+		if u, ok := memo[g]; ok {
+			return u
+		}
+		u := &use{map[int]bool{}, map[int]bool{}}
+		memo[g] = u
+		pidx := func(v ssa.Value) int {
+			for i, p := range g.Params {
+				if ssa.Value(p) == v {
+					return i
+				}
+			}
+			return -1
+		}
+		for _, b := range g.Blocks {
+			for _, ins := range b.Instrs {
+				switch x := ins.(type) {
+				case *ssa.Lookup:
+					if i := pidx(x.X); i >= 0 && x.CommaOk {
+						u.looked[i] = true
+					}
+				case *ssa.MapUpdate:
+					if i := pidx(x.Map); i >= 0 {
+						u.filled[i] = true
+					}
+				case ssa.CallInstruction:
+					if h := x.Common().StaticCallee(); h != nil && len(h.Blocks) > 0 && depth < 2 && !x.Common().IsInvoke() {
+						hu := summarize(h, depth+1)
+						for ai, a := range x.Common().Args {
+							if i := pidx(a); i >= 0 {
+								if hu.looked[ai] {
+									u.looked[i] = true
+								}
+								if hu.filled[ai] {
+									u.filled[i] = true
+								}
+							}
+						}
+					}
+				}
+			}
+		}
+		return u
+	}
+	for _, root := range r.P.Funcs {
+		if root == nil || len(root.Blocks) == 0 || !strings.HasSuffix(r.P.Name(root), "/types.GenesisState.Validate") {
 			continue
 		}
-		for li, l := range cfgx.Loops(f) {
-			var looked, filled []ssa.Value
-			for b := range l.Body {
-				for _, ins := range b.Instrs {
-					switch x := ins.(type) {
-					case *ssa.Lookup:
-						if x.CommaOk {
-							looked = append(looked, x.X)
-						}
-					case *ssa.MapUpdate:
-						filled = append(filled, x.Map)
-					}
-				}
-			}
-			if len(looked) == 0 || len(filled) == 0 {
+		// the function and the helpers of its package it is split into
+		for _, f := range r.P.SortedFuncs(r.P.CG.Reach(root)) {
+			if f.Pkg != root.Pkg || len(f.Blocks) == 0 || r.P.IsGenerated(f) {
 				continue
 			}
-			n++
-			key := core.Key(id, r.P.Name(f), fmt.Sprintf("loop#%d", li+1))
-			okm := true
-			for _, m := range looked {
-				same := false
-				for _, m2 := range filled {
-					if m == m2 {
-						same = true
+			for li, l := range cfgx.Loops(f) {
+				var looked, filled []ssa.Value
+				for b := range l.Body {
+					for _, ins := range b.Instrs {
+						switch x := ins.(type) {
+						case *ssa.Lookup:
+							if x.CommaOk {
+								looked = append(looked, x.X)
+							}
+						case *ssa.MapUpdate:
+							filled = append(filled, x.Map)
+						case ssa.CallInstruction:
+							if h := x.Common().StaticCallee(); h != nil && len(h.Blocks) > 0 && !x.Common().IsInvoke() {
+								hu := summarize(h, 0)
+								for ai, a := range x.Common().Args {
+									if _, isMap := a.Type().Underlying().(*types.Map); !isMap {
+										continue
+									}
+									if hu.looked[ai] {
+										looked = append(looked, a)
+									}
+									if hu.filled[ai] {
+										filled = append(filled, a)
+									}
+								}
+							}
+						}
 					}
 				}
-				if !same {
-					okm = false
+				if len(looked) == 0 || len(filled) == 0 {
+					continue
 				}
-			}
-			if okm {
-				r.Discharge(id, key, r.P.Pos(l.Header.Instrs[0].Pos()), "the index is looked up in the map this loop fills")
-			} else {
-				r.Violate(id, key, r.P.Pos(l.Header.Instrs[0].Pos()), "a duplicate-index check of GenesisState.Validate looks the element up in a map that this loop does not fill (another list's index): a state in which two different tables share a key is rejected although the module exported it")
+				n++
+				key := core.Key(id, r.P.Name(root), r.P.Name(f), fmt.Sprintf("loop#%d", li+1))
+				okm := true
+				for _, m := range looked {
+					same := false
+					for _, m2 := range filled {
+						if m == m2 {
+							same = true
+						}
+					}
+					if !same {
+						okm = false
+					}
+				}
+				if okm {
+					r.Discharge(id, key, r.P.Pos(l.Header.Instrs[0].Pos()), "the index is looked up in the map this loop fills")
+				} else {
+					r.Violate(id, key, r.P.Pos(l.Header.Instrs[0].Pos()), "a duplicate-index check of GenesisState.Validate looks the element up in a map that this loop does not fill (another list's index): a state in which two different tables share a key is rejected although the module exported it")
+				}
 			}
 		}
 	}
@@ -258,39 +367,49 @@ func rulePermApplied(r *core.Run, id string) {
 	if fn == nil {
 		return
 	}
-	sets := callsIn(r, fn, "model/keeper.Keeper.SetMetadata")
 	n := 0
-	for _, field := range []string{"ReadonlyDids", "ReadwriteDids"} {
-		var stores []*ssa.Store
-		for _, b := range fn.Blocks {
-			for _, ins := range b.Instrs {
-				st, ok := ins.(*ssa.Store)
-				if !ok {
-					continue
-				}
-				fa, ok := st.Addr.(*ssa.FieldAddr)
-				if ok && shortTypeName(fa.X.Type())+"."+fieldNameT(fa.X.Type(), fa.Field) == "model/types.Metadata."+field {
-					if _, isParam := st.Val.(*ssa.Parameter); isParam {
-						stores = append(stores, st)
+	// the assignments and the write may sit in a helper the exported function forwards to (parameter object): every
+	// frame under the function is looked at, values are read in the exported function's vocabulary
+	for _, fr := range frames(r, fn) {
+		g := fr.Fn
+		sets := callsIn(r, g, "model/keeper.Keeper.SetMetadata")
+		if len(sets) == 0 {
+			continue
+		}
+		for _, field := range []string{"ReadonlyDids", "ReadwriteDids"} {
+			var stores []*ssa.Store
+			for _, b := range g.Blocks {
+				for _, ins := range b.Instrs {
+					st, ok := ins.(*ssa.Store)
+					if !ok {
+						continue
+					}
+					fa, ok := st.Addr.(*ssa.FieldAddr)
+					if !ok || shortTypeName(fa.X.Type())+"."+fieldNameT(fa.X.Type(), fa.Field) != "model/types.Metadata."+field {
+						continue
+					}
+					vt := strings.TrimLeft(normT(fr.T(r, st.Val)), "*&~")
+					if len(vt) >= 2 && vt[0] == '#' && strings.Trim(vt[1:], "0123456789") == "" {
+						stores = append(stores, st) // a parameter of UpdatePermission itself
 					}
 				}
 			}
-		}
-		for i, c := range sets {
-			n++
-			key := core.Key(id, fnName, fmt.Sprintf("SetMetadata#%d", i+1), field)
-			blocks := map[*ssa.BasicBlock]bool{}
-			for _, st := range stores {
-				blocks[st.Block()] = true
-			}
-			okp := blocks[c.Block()]
-			if !okp && len(blocks) > 0 {
-				okp = forwardAvoid(fn.Blocks[0], blocks, nil, func(x *ssa.BasicBlock) bool { return x == c.Block() }) == nil
-			}
-			if okp {
-				r.Discharge(id, key, r.P.Pos(c.Pos()), "every path to the write assigns Metadata."+field+" from the verified request")
-			} else {
-				r.Violate(id, key, r.P.Pos(c.Pos()), "UpdatePermission can persist the metadata on a path that does not assign Metadata."+field+" from the request: a request with an empty list (decoded as nil) is accepted and reports success, but the grants it revokes stay in force")
+			for i, c := range sets {
+				n++
+				key := core.Key(id, fnName, fmt.Sprintf("SetMetadata#%d", i+1), field)
+				blocks := map[*ssa.BasicBlock]bool{}
+				for _, st := range stores {
+					blocks[st.Block()] = true
+				}
+				okp := blocks[c.Block()]
+				if !okp && len(blocks) > 0 {
+					okp = forwardAvoid(g.Blocks[0], blocks, nil, func(x *ssa.BasicBlock) bool { return x == c.Block() }) == nil
+				}
+				if okp {
+					r.Discharge(id, key, r.P.Pos(c.Pos()), "every path to the write assigns Metadata."+field+" from the verified request")
+				} else {
+					r.Violate(id, key, r.P.Pos(c.Pos()), "UpdatePermission can persist the metadata on a path that does not assign Metadata."+field+" from the request: a request with an empty list (decoded as nil) is accepted and reports success, but the grants it revokes stay in force")
+				}
 			}
 		}
 	}
